@@ -67,6 +67,9 @@ type Chan struct {
 	recvWaiting int
 	ID    int
 	Timer *simTimer
+	// where the last buffered value was sent from (for native schedule following)
+	lastFile string
+	lastLine, lastOcc int
 }
 
 type chanWaiter struct {
